@@ -211,6 +211,7 @@ type Obligation struct {
 	Seq        int
 	ifacePreds map[string]types.Type
 	world      *World
+	Replay     *ReplayInfo // how to replay a counterexample of this obligation on the real code (nil: not replayable)
 }
 
 // heap returns the current version of heap `name` (declaring it on first use).
